@@ -468,7 +468,36 @@ def r18g(F):
 		out.append(Result('18.g', okv, ('ok:' if okv else 'precision:') + 'whole-seconds@' + adt, '%s is built from Duration::from_secs(..) (found %s)%s' % (adt, seen, '' if okv else ' - a sub-second part cannot be encoded: the emitted string parses back to a different invoice'), len(seen), where=F.where(ctor)))
 	return out
 
+def r18h(F):
+	"""BOLT-11 integers are written without leading zeros, zero being the empty string: encode_int_be_base32 emits a symbol only behind the
+	`remainder != 0` test - from the first symbol on - so that it always emits exactly encoded_int_be_base32_size(int) symbols, the length the
+	tagged field declares (a stray symbol for 0 shifts every later field of the signed data)"""
+	out = []
+	fn = INV + 'ser::encode_int_be_base32'
+	fu = F.func(fn)
+	live = fu.reach([0])
+	stores = {bi for bi, si, st in fu.stmts() if bi in live and len(st[1]) == 2 and isinstance(st[1][1], str) and st[1][1].startswith('[')}
+	gs = [Guard(fu, c) for c in comparisons(fu)]
+	nz = [g for g in gs if g.nf[1] in ('Ne', 'Eq') and g.nf[2] == 0 and len(g.nf[0]) == 1 and g.decisions]
+	if not stores or not nz:
+		return [Result('18.h', False, 'anchor:int-encoder', 'encode_int_be_base32: symbol stores / the remainder test were not found (%d / %d)' % (len(stores), len(nz)), where=F.where(fn))]
+	ds = []
+	for g in nz:
+		for d in g.decisions:
+			# normalise to "remainder != 0" being the true edge
+			if g.nf[1] == 'Eq':
+				d = Decision(d.b, d.false_edges, d.true_edges, d.what)
+			ds.append(d)
+	out += P4_guarded(F, '18.h', fu, stores, ds, True, 'remainder != 0', key='symbol-only-for-nonzero-remainder')
+	sz = F.func(INV + 'ser::encoded_int_be_base32_size')
+	lz = sz.call_blocks(lambda p: p.endswith('leading_zeros'))
+	dc = sz.call_blocks(lambda p: p.endswith('div_ceil'))
+	ok = bool(lz) and bool(dc)
+	out.append(Result('18.h', ok, ('ok:' if ok else 'shape:') + 'declared-length-from-bit-length', 'encoded_int_be_base32_size = ceil((64 - leading_zeros) / 5): 0 for 0', len(lz) + len(dc), where=F.where(sz.name)))
+	return out
+
 RULES = [
+	('18.h', 'BOLT-11 integers: a symbol is emitted only for a non-zero remainder (zero is empty), matching the declared field length', r18h),
 	('18.g', 'BOLT-11 expiry and timestamp hold whole seconds only: single constructor, built with Duration::from_secs', r18g),
 	('18.a', 'signed BOLT-12 objects are built only behind signature verification (parser) or sign_message (signer)', r18a),
 	('18.b', 'Bolt11Invoice only through from_signed (all four checks) or the builder; signature checked against the included payee key; hash from parsed parts', r18b),
